@@ -1,4 +1,9 @@
 /- C13: fixed-width text — theorems about the primitive model for every width, pad byte, side and byte string. -/
+import FinProto.Obl.SPrims
 import FinProto.Props.PrimLemmas
 namespace FinProto.Obl
+open FinProto
+/-- the primitives, template-translated from the current source, are the pinned ones (or unrecognised) -/
+theorem C13_prims : primsAgree Gen.prims pinnedPrims = true := gen_prims_agree
+
 end FinProto.Obl
